@@ -356,6 +356,24 @@ func (r *Report) Expect(rule string, n int) {
 	}
 }
 
+// ExpectCensus: the rule must have covered at least as many sites as an independent census of the
+// tree under test found (e.g. natural loops of the analysed functions counted on the SSA form,
+// independently of the loop rules).  `confirmed` is the count confirmed by hand on the pinned
+// tree: a smaller census is legitimate (code removed) and only noted; a rule that covers fewer
+// sites than the census is the vacuity failure.
+func (r *Report) ExpectCensus(rule string, census, confirmed int) {
+	s := r.rule(rule)
+	if s.Sites < census {
+		r.Fail("vacuity", "-", rule, token.NoPos,
+			fmt.Sprintf("rule %s covered %d sites, the tree has %d", rule, s.Sites, census), nil)
+		return
+	}
+	r.OK("vacuity")
+	if census < confirmed {
+		r.Note("rule %s: the tree has %d sites, %d were confirmed by hand on the pinned tree (all %d are covered)", rule, census, confirmed, census)
+	}
+}
+
 // ---------------------------------------------------------------------------------------------
 // Known findings
 
